@@ -623,6 +623,12 @@ func (wg *WeightedAuthorizationModelGraph) calculateNodeWeightAndFixDependencies
 			weights[key] = Infinite
 		}
 	}
+
+	// a cycle that leads nowhere else (e.g. define a: [doc#a]) resolves to nothing: no terminal type is reachable
+	if len(weights) == 0 {
+		return fmt.Errorf("%w: %s node does not have any terminal type to reach to", ErrInvalidModel, node.uniqueLabel)
+	}
+
 	node.weights = weights
 
 	wg.fixDependantEdgesWeight(nodeID, referenceNodeID, references, tupleCycleDependencies)
